@@ -332,10 +332,12 @@ func main() {
 	}
 	for k := 0; k < nw; k++ {
 		n := g.Intn(30)
-		if th && g.Chance(1, 10) {
-			n = 100 + g.Intn(200)
+		size := uint64(1 + g.Intn(9))
+		if th && g.Chance(1, 25) {
+			n = 100 + g.Intn(200) // a few large collections (each step is a case carrying all keys)
+			size = uint64(7 + g.Intn(40))
 		}
-		in := input{Kind: "col-walk", Rows: sparseKeys(g, n), Size: uint64(1 + g.Intn(9)), Order: []string{"asc", "desc"}[g.Intn(2)], Pit: genPit(g)}
+		in := input{Kind: "col-walk", Rows: sparseKeys(g, n), Size: size, Order: []string{"asc", "desc"}[g.Intn(2)], Pit: genPit(g)}
 		if g.Bool() {
 			in.Filter = genFilter(g, 2)
 		}
